@@ -436,6 +436,7 @@ type Expr struct {
 	Name    string // ident / field name / operator / call name
 	Args    []*Expr
 	Binders []Binder
+	Pats    [][]*Expr // explicit instantiation patterns of a forall: forall x T :: {p1, p2} {p3} body
 }
 
 func (e *Expr) String() string {
@@ -532,7 +533,7 @@ func lex(s string) ([]tok, error) {
 			out = append(out, tok{"id", s[i:j]})
 			i = j
 		default:
-			ops := []string{"<==>", "==>", "::", "&&", "||", "==", "!=", "<=", ">=", "<", ">", "+", "-", "*", "/", "%", "!", "(", ")", "[", "]", ",", ".", "?", ":"}
+			ops := []string{"<==>", "==>", "::", "&&", "||", "==", "!=", "<=", ">=", "<", ">", "+", "-", "*", "/", "%", "!", "(", ")", "[", "]", ",", ".", "?", ":", "{", "}"}
 			matched := false
 			for _, op := range ops {
 				if strings.HasPrefix(s[i:], op) {
@@ -678,11 +679,32 @@ func (p *parser) unary() (*Expr, error) {
 		if err := p.expect("::"); err != nil {
 			return nil, err
 		}
+		var pats [][]*Expr
+		for p.isOp("{") {
+			p.next()
+			var grp []*Expr
+			for {
+				pe, err := p.expr(0)
+				if err != nil {
+					return nil, err
+				}
+				grp = append(grp, pe)
+				if p.isOp(",") {
+					p.next()
+					continue
+				}
+				break
+			}
+			if err := p.expect("}"); err != nil {
+				return nil, err
+			}
+			pats = append(pats, grp)
+		}
 		body, err := p.expr(0)
 		if err != nil {
 			return nil, err
 		}
-		return &Expr{Kind: t.text, Binders: bs, Args: []*Expr{body}}, nil
+		return &Expr{Kind: t.text, Binders: bs, Args: []*Expr{body}, Pats: pats}, nil
 	}
 	return p.postfix()
 }
